@@ -1,5 +1,5 @@
 (* C20: the native registry dispatches on exactly (table, kind, expression text up to whitespace). *)
-From Coq Require Import List Bool Arith NArith Lia.
+From Coq Require Import List Bool Arith NArith Lia DecimalNat.
 From Coq Require Import Strings.Byte Strings.String.
 From Minidyn Require Import Base.Str Base.FMap Base.Outcome Model.Value Model.Key Model.Index Model.Table.
 From Minidyn Require Import Proofs.FMapFacts.
@@ -99,6 +99,31 @@ Proof.
       * intros Hin. apply H2. now right.
 Qed.
 
+(* the registration key since fix cbdfecf: the decimal length of the table name, "|", the table name, "|", the
+   normalised expression; it identifies the pair for ALL table names and expressions *)
+Lemma dec_str_no_bar u : no_bar (dec_str u).
+Proof. induction u; cbn; intros H; try (destruct H as [H|H]; [discriminate|now apply IHu]); destruct H. Qed.
+
+Lemma dec_str_inj u : forall v, dec_str u = dec_str v -> u = v.
+Proof. induction u; intros v E; destruct v; cbn in E; try discriminate; auto; inversion E; f_equal; auto. Qed.
+
+Lemma itoa_inj n m : itoa n = itoa m -> n = m.
+Proof. unfold itoa. intros E. apply dec_str_inj in E. now apply Unsigned.to_uint_inj. Qed.
+
+Lemma app_same_length {A} (a1 a2 b1 b2 : list A) : List.length a1 = List.length a2 -> a1 ++ b1 = a2 ++ b2 -> a1 = a2 /\ b1 = b2.
+Proof.
+  revert a2; induction a1 as [|x a1 IH]; intros [|y a2] L E; cbn in *; try discriminate; auto.
+  inversion E; subst. destruct (IH a2) as [-> ->]; auto.
+Qed.
+
+Lemma reg_key_injective t1 e1 t2 e2 : reg_key t1 e1 = reg_key t2 e2 -> t1 = t2 /\ norm_expr e1 = norm_expr e2.
+Proof.
+  unfold reg_key. intros E.
+  apply reg_key_inj in E as [Hl E]; [|apply dec_str_no_bar|apply dec_str_no_bar].
+  apply itoa_inj in Hl. apply app_same_length in E as [-> E]; auto. split; auto.
+  cbn in E. now inversion E.
+Qed.
+
 Definition ekind_eqb (a b : ekind) : bool :=
   match a, b with KKey, KKey | KFilter, KFilter | KCond, KCond => true | _, _ => false end.
 
@@ -112,13 +137,12 @@ Qed.
 
 (* a registration answers a request iff table, kind and the word sequence of the expression agree *)
 Theorem registration_matches_exactly t' k' e' t k e :
-  no_bar t -> no_bar t' ->
   (ekind_eqb k k' && str_eqb (reg_key t e) (reg_key t' e') = true) <-> (k = k' /\ t = t' /\ fields e = fields e').
 Proof.
-  intros H1 H2. rewrite andb_true_iff, str_eqb_eq. unfold reg_key. split.
-  - intros [Hk He]. apply reg_key_inj in He as [-> Hn]; auto. apply norm_expr_eq_iff in Hn.
+  rewrite andb_true_iff, str_eqb_eq. split.
+  - intros [Hk He]. apply reg_key_injective in He as [-> Hn]. apply norm_expr_eq_iff in Hn.
     destruct k, k'; try discriminate; auto.
-  - intros [-> [-> Hf]]. split; [destruct k'; reflexivity|]. apply norm_expr_eq_iff in Hf. now rewrite Hf.
+  - intros [-> [-> Hf]]. split; [destruct k'; reflexivity|]. apply norm_expr_eq_iff in Hf. unfold reg_key. now rewrite Hf.
 Qed.
 
 Lemma lookup_add_updater_matchers r t' e' id set k key :
